@@ -155,6 +155,7 @@ func (conn *Conn) recv() {
 			if req.next != nil {
 				req.next.prev = req
 			}
+			verifPoint("@recv", req, process)
 			conn.Unlock()
 			verifPoint("recv.enqueued", req, process)
 			if process {
